@@ -46,6 +46,7 @@ PLAIN_VALUES = {"int": 41, "str": "v-text", "bool": True, "float": 2.5, "ilist":
 # recording of opens: audit hook (installed once, cannot be removed) + builtins.open wrapper
 # ---------------------------------------------------------------------------------------------
 _REC = {"root": None, "attempts": []}
+_INFO = {}   # id(case) -> what impl recorded for the oracle (kept out of the case: evidence and replay files stay small)
 _WFLAGS = os.O_WRONLY | os.O_RDWR | os.O_CREAT | os.O_TRUNC | os.O_APPEND
 
 
@@ -405,7 +406,7 @@ def impl(case):
                     info["reload"] = values_of(cfg3, case["fields"])
                 except Exception as e:  # noqa
                     info["reload"] = ("err", type(e).__name__, str(e)[:200])
-        case["_info"] = info
+        _INFO[id(case)] = info
 
         def content(rel):
             b = after.get(rel)
@@ -465,7 +466,7 @@ def formatter_fails(case):
 
 
 def gcase(case):
-    info = case.get("_info") or {}
+    info = _INFO.get(id(case)) or {}
     files = []
     nowrite = []
     for i, (name, state) in enumerate(case["keyfiles"]):
@@ -496,7 +497,7 @@ def gcase(case):
 # the property itself, on the implementation (no model involved)
 # ---------------------------------------------------------------------------------------------
 def oracle(case, obs):
-    info = case.get("_info")
+    info = _INFO.get(id(case))
     if not info:
         return ["harness: no observation record"]
     bad = []
@@ -589,7 +590,7 @@ def tags(case, obs):
         t.add("fault:" + f)
     if not case["faults"]:
         t.add("fault:none")
-    info = case.get("_info") or {}
+    info = _INFO.get(id(case)) or {}
     if any(p in {rel_expanded(n) for n, _ in case["keyfiles"]} for p in obs[1]):
         t.add("keyfile-created")
     if info.get("reload") == "skipped":
